@@ -478,7 +478,17 @@ func (c C16) Run(t *tape.Tape, opt core.RunOpt) (res core.Result) {
 				res.Violate("C16", "schema_member_order_differs:"+a.kind, fmt.Sprintf("the %s arrangement defines the members in a different order: %s\n%s", a.kind, firstDiffStr(base.descU, got.descU), describe()), nil)
 				return
 			}
-			if d := base.obs.Diff(got.obs); d != "" && !strings.HasPrefix(d, "printed schema differs") {
+			// The printed schema may differ legitimately (a directive use written
+			// before the directive's definition prints without the defaulted
+			// arguments), so it is left out of the comparison - but not the order in
+			// which it lists the definitions, and nothing of the rest.
+			if bo, gt := sdlOrder(base.obs.SDL), sdlOrder(got.obs.SDL); bo != gt {
+				res.Violate("C16", "printed_definition_order_differs:"+a.kind, fmt.Sprintf("the %s arrangement prints the definitions in a different order: %s\n%s", a.kind, firstDiffStr(bo, gt), describe()), nil)
+				return
+			}
+			bobs, gobs := *base.obs, *got.obs
+			bobs.SDL, gobs.SDL = "", ""
+			if d := bobs.Diff(&gobs); d != "" {
 				cls := "introspection_differs:" + a.kind
 				if strings.HasPrefix(d, "response") || strings.HasPrefix(d, "request") {
 					cls = "requests_resolve_differently:" + a.kind
@@ -513,6 +523,22 @@ func (c C16) Run(t *tape.Tape, opt core.RunOpt) (res core.Result) {
 	}
 	_ = ggql.Sort
 	return
+}
+
+// sdlOrder lists the definitions of a printed schema in the order printed.
+func sdlOrder(sdl string) string {
+	var out []string
+	for _, line := range strings.Split(sdl, "\n") {
+		for _, kw := range []string{"type ", "interface ", "union ", "enum ", "input ", "scalar ", "directive ", "schema "} {
+			if strings.HasPrefix(line, kw) {
+				f := strings.Fields(line)
+				if len(f) >= 2 {
+					out = append(out, f[0]+" "+strings.TrimRight(f[1], "({"))
+				}
+			}
+		}
+	}
+	return strings.Join(out, ", ")
 }
 
 func firstDiffStr(a, b string) string {
